@@ -1,7 +1,7 @@
 (* C10 — property theorems about backups and non-instant prunes running concurrently, for
    EVERY interleaving of their backend operations (Model.v). *)
 From Verif.Base Require Import Tactics.
-From Verif.C10 Require Import Extracted Model ProofsBase ProofsBB ProofsWitness ProofsView ProofsFresh ProofsSafe ProofsTruth ProofsMain ProofsSnap ProofsFull ProofsRecover ProofsFacts.
+From Verif.C10 Require Import Extracted Model ProofsBase ProofsBB ProofsWitness ProofsView ProofsFresh ProofsSafe ProofsTruth ProofsMain ProofsSnap ProofsFull ProofsRecover ProofsFacts ProofsFixed.
 Local Open Scope nat_scope.
 
 (* Overlapping backups need no hypothesis: from any repository whose index is exact and whose
@@ -128,36 +128,65 @@ Theorem source_exec_table_matches_model : forall t, source_section t = model_sec
 Proof. exact source_exec_table_lemma. Qed.
 Print Assumptions source_exec_table_matches_model.
 
-(* marks are stamped with prune_plan.time; the plan time is taken after the scan; expiry is
+(* the delete marks are stamped when the index file holding them is written (add_delete_marks, Timestamp::now()
+   right before indexer.finalize()); the plan time is taken BEFORE the repository is read; expiry is
    `plan_time - keep_delete >= mark_time`; kept marks keep their time *)
 Theorem source_time_facts :
-  stamp_is_plan_time = true /\ plan_time_after_scan = true /\ expiry_nonstrict = true /\
+  marks_stamped_at_write = true /\ plan_time_after_scan = false /\ expiry_nonstrict = true /\
   ts_MarkDelete = Stamp /\ ts_Repack = Stamp /\ ts_Unreferenced = Stamp /\ ts_KeepMarked = KeepOld.
 Proof. exact source_time_facts_lemma. Qed.
 Print Assumptions source_time_facts.
 
-(* every mark in the index a prune writes carries the PLAN time, or is a mark of its view with its old time *)
+(* every mark in the index a prune writes carries the stamp time of the (re-stamped) plan, or is a mark of its
+   view with its old time *)
 Theorem fresh_marks_carry_plan_time : forall q m, In m (mk (new_index q)) ->
   snd m = ptime q \/ exists x, In x (dmk (pview q)) /\ m = snd x.
 Proof. exact fresh_marks_lemma. Qed.
 Print Assumptions fresh_marks_carry_plan_time.
 
-(* ... and the plan time is the clock at the pack listing (after index load and snapshot scan) *)
-Theorem plan_time_is_listing_clock : forall kd s asg rw s', step kd s (PPlan asg rw) = Some s' ->
-  exists q', prn s' = Some q' /\ ptime q' = clock s.
-Proof. exact plan_time_is_listing_clock_lemma. Qed.
-Print Assumptions plan_time_is_listing_clock.
+(* ... and that stamp is the clock at the index write: marks carry their PUBLICATION time *)
+Theorem published_marks_carry_write_time : forall kd s s', step kd s PWriteIndex = Some s' ->
+  exists q f, prn s = Some q /\ idxs s' = idxs s ++ [(nexti s, f)] /\
+    forall m, In m (mk f) -> snd m = clock s \/ exists x, In x (dmk (pview q)) /\ m = snd x.
+Proof. exact published_marks_lemma. Qed.
+Print Assumptions published_marks_carry_write_time.
 
-(* The literal premise of the property (keep-delete exceeds every backup's duration) is not
-   enough, because marks carry the PLAN time of the prune (`prune_plan.time`), not the time the
-   new index becomes visible: every backup is shorter than keep_delete, every deletion concerns a
-   pack expired when the deleting prune started (timely_b), yet a snapshot loses a blob; the path
-   violates only `timely_a`. *)
-Theorem slow_prune_refuted :
-  exists s, run slow_prune_kd init slow_prune_run = Some s /\
-            short_backups slow_prune_kd s = true /\
-            run_tb slow_prune_kd init slow_prune_run = true /\
-            all_stored s = false /\
-            run_timely slow_prune_kd init slow_prune_run = None.
-Proof. exact slow_prune_refuted_lemma. Qed.
-Print Assumptions slow_prune_refuted.
+(* the time expiry is tested against is the clock when the prune STARTED (before index load and scan) *)
+Theorem plan_time_is_start_time : forall kd s asg rw s', step kd s (PPlan asg rw) = Some s' ->
+  exists q q', prn s = Some q /\ prn s' = Some q' /\ ptime q' = plstart q.
+Proof. exact plan_time_source_lemma. Qed.
+Print Assumptions plan_time_is_start_time.
+
+(* hence hypothesis (b) of `timely` holds in every reachable state: it is a property of the code now *)
+Theorem timely_b_by_construction : forall kd es s, run kd init es = Some s -> timely_b kd s = true.
+Proof. exact (timely_b_by_construction_lemma eq_refl). Qed.
+Print Assumptions timely_b_by_construction.
+
+(* REPAIRED (fix 8ab7696, formerly the open finding prune-marks-carry-plan-time / `slow_prune_refuted`):
+   for every interleaving of any number of backups with non-overlapping prunes in which every running backup
+   started before the marks on the packs it relies on were stamped — i.e. published — and is younger than
+   keep_delete (`premise`), no data of any snapshot is lost and no pack a running backup deduplicated against
+   is deleted. *)
+Theorem started_before_publication_safe : forall kd es s,
+  run_prem kd init es = Some s -> all_stored s = true /\ held_present s = true.
+Proof. exact (fixed_prune_safe_lemma eq_refl). Qed.
+Print Assumptions started_before_publication_safe.
+
+(* the slow-prune schedule is no longer a path: the mark carries the publication time 6, prune 2 (started at
+   10 = plan time of prune 1 + keep_delete) must keep the pack *)
+Theorem slow_prune_rejected :
+  run slow_prune_kd init slow_prune_run = None /\
+  exists s, run slow_prune_kd init slow_prune_prefix = Some s /\ clock s = 10 /\
+            marks_of s = [((0, [1]), 6)] /\
+            step slow_prune_kd s (PPlan [(0, Delete)] [1]) = None /\
+            exists s', step slow_prune_kd s (PPlan [(0, KeepMarked)] []) = Some s'.
+Proof. exact slow_prune_rejected_lemma. Qed.
+Print Assumptions slow_prune_rejected.
+
+(* Example (non-vacuity of `premise`): what the repaired code does on that schedule *)
+Theorem slow_prune_fixed_example :
+  exists s s', run_prem slow_prune_kd init slow_prune_fixed_run = Some s /\
+               short_backups slow_prune_kd s = true /\ all_stored s = true /\ all_closed s = false /\
+               run_prem slow_prune_kd s slow_prune_recover = Some s' /\ all_closed s' = true.
+Proof. exact slow_prune_fixed_example_lemma. Qed.
+Print Assumptions slow_prune_fixed_example.
